@@ -699,8 +699,11 @@ func ruleCollectionRelease(c *Ctx, rule string, cl *ssa.Function, recv ssa.Value
 		}
 	}
 	if accessor != nil {
-		if how := w.returnsCopyOf(accessor, f); how != "copy" {
-			c.Bad(rule, fname(accessor), name+" snapshot", w.pos(accessor.Pos()), "the accessor feeding the teardown loop returns "+how+": removing elements while ranging over the live slice skips entries")
+		if how := w.returnsCopyOf(accessor, f); how != "copy" && w.overwrittenBelowLen(f) == "" {
+			// a view of an array that is never written below its length (append-only /
+			// copy-on-write field, holders only read): as good as a copy
+		} else if how != "copy" {
+			c.Bad(rule, fname(accessor), name+" snapshot", w.pos(accessor.Pos()), "the accessor feeding the teardown loop returns "+how+": removing elements while ranging over the live slice skips entries (the array is changed under the holder: "+w.overwrittenBelowLen(f)+")")
 			return
 		}
 	}
@@ -898,6 +901,18 @@ func ruleErrorPathRelease(c *Ctx, rule string) {
 				prod = call
 			}
 		})
+		if prod == nil {
+			// the acquisition moved into a helper of its own (one probe per call): the
+			// obligation is the helper's, from its acquisition to its exits
+			for _, h := range w.helpersOf(s.fn) {
+				w.eachInstr(h, func(in ssa.Instruction) {
+					if call, ok := in.(*ssa.Call); ok && s.pick(call) && prod == nil {
+						prod = call
+						s.fn = h
+					}
+				})
+			}
+		}
 		if prod == nil {
 			c.Bad(rule, fname(s.fn), s.name, w.pos(s.fn.Pos()), "resource producer call not found: anchor gone")
 			continue
